@@ -83,8 +83,9 @@ func newPkg(pkg *packages.Package, u *Universe) Package {
 		signatures: make(map[*types.Signature]ast.Node),
 	}
 
-	for pkgPath := range pkg.Imports {
-		p.imports[pkgPath] = u.Package(pkgPath)
+	for importPath, imported := range pkg.Imports {
+		// the universe is keyed by PkgPath, which differs from the import path for std's vendored packages
+		p.imports[importPath] = u.Package(imported.PkgPath)
 	}
 
 	fileLineFor := func(pos token.Pos, deltaLine int) fileLine {
